@@ -303,3 +303,4 @@ def run(ctx):
     borrow(ctx, 'C06', ['SEEK-GATE'], 'an out-of-range seek must be refused (SFE_BAD_SEEK) whatever mode bits the whence carries')
     borrow(ctx, 'C16', ['FD-VALID'], 'a failed sf_open must leave no descriptor behind, including descriptor 0')
 
+    borrow(ctx, 'C03', ['TABLE-INDEX'], 'an index argument of a command (SFC_GET_FORMAT_MAJOR, SFC_GET_SIMPLE_FORMAT, error numbers ...) that is out of range must be refused, not used as a table subscript')
